@@ -75,7 +75,7 @@ def fitter_histories(ctx, rng):
     return out
 
 
-def fitter_history_fail(two_d, hist, x, z=None):
+def fitter_history_fail(two_d, hist, x, z=None, alike=False):
     """returns the description of the first failing step, or None"""
     import warnings
     from pybaselines import Baseline, Baseline2D, _spline_utils as su
@@ -105,7 +105,7 @@ def fitter_history_fail(two_d, hist, x, z=None):
         fit = Baseline2D(x, z)
         Y = 3 + np.add.outer(np.sin(np.linspace(0, 3, len(x))), np.linspace(0, 1, len(z)))
         for step, (nk, deg) in enumerate(hist):
-            nk2, deg2 = (nk, max(2, nk - 1)), (deg, max(1, (deg + 1) % 5))
+            nk2, deg2 = ((nk, nk), (deg, deg)) if alike else ((nk, max(2, nk - 1)), (deg, max(1, (deg + 1) % 5)))
             _, _, ps = fit._setup_spline(Y, None, deg2, nk2, True, 1, 1.0)
             for ax, (xx, Bax) in enumerate(((fit.x, ps.basis.basis_r), (fit.z, ps.basis.basis_c))):
                 knots = su._spline_knots(xx, nk2[ax], deg2[ax], True)
@@ -262,8 +262,14 @@ def correspond(ctx):
         if rng.random() < 0.25:
             x = x[::-1].copy()
         z = np.linspace(-1, 2, 24) if two_d else None
+        alike = bool(two_d and rng.random() < 0.5)
+        if alike:
+            # both axes with the same length, range, knot count and degree (the same knot vector), different point positions
+            x = np.sort(x)
+            z = x.min() + (x.max() - x.min()) * np.linspace(0, 1, len(x)) ** 2
+            ctx.count('fitter-history:2d-axes-alike')
         try:
-            f = fitter_history_fail(two_d, hist, x, z)
+            f = fitter_history_fail(two_d, hist, x, z, alike)
         except Exception as e:
             f = f'{type(e).__name__}: {e}'
         ctx.case(('fitter-history', two_d, tuple(hist), len(x)), nontrivial=True,
@@ -274,7 +280,7 @@ def correspond(ctx):
         if f:
             dis.append(Disagreement('c12.fitter', 'fitter:history', f'{"Baseline2D" if two_d else "Baseline"} reused over {hist}: {f}',
                                     {'check': 'fitter', 'two_d': bool(two_d), 'history': [list(h) for h in hist], 'x': x.tolist(),
-                                     'z': None if z is None else z.tolist(), 'deg': 0, 'num_knots': 0}, True))
+                                     'z': None if z is None else z.tolist(), 'alike': alike, 'deg': 0, 'num_knots': 0}, True))
     res = drive(lines, timeout=1200)
     ctx.traces += len(lines)
     for ln, r, (kind, meta, real, knots) in zip(lines, res, metas):
@@ -315,7 +321,7 @@ def replay(ctx, data):
     deg, nk = r['deg'], r['num_knots']
     if r.get('check') == 'fitter':
         try:
-            return fitter_history_fail(r['two_d'], [tuple(h) for h in r['history']], x, None if r.get('z') is None else np.array(r['z']))
+            return fitter_history_fail(r['two_d'], [tuple(h) for h in r['history']], x, None if r.get('z') is None else np.array(r['z']), bool(r.get('alike')))
         except Exception as e:
             return f'{type(e).__name__}: {e}'
     try:
